@@ -28,7 +28,7 @@ RULE = ("generated frame streams x enumerated/generated cut sets x generated int
 ASSUMPTIONS = ["frames are produced by the library's own encoder (its round trip is the subject of C03)",
                "one socket is reused for all segmentations of one stream (a long-lived connection)"]
 
-GAPS = ["none", "turn1", "turn3", "settle", "advance"]
+GAPS = ["none", "turn1", "turn3", "settle", "advance", "advance31", "advance301"]
 
 
 def _turns(loop, n):
@@ -75,6 +75,10 @@ class StreamRig:
                 loop.settle()
             elif gap == "advance":
                 loop.advance(0.25)
+            elif gap == "advance31":
+                loop.advance(31.0)       # a stall of half a minute inside a frame
+            elif gap == "advance301":
+                loop.advance(301.0)      # ... of five minutes (longer than every interval the client knows)
         loop.settle()
         self.n_feeds += 1
         out = [((h.to_address, h.from_address, h.packet_id, h.message_id, h.message_length), m)
@@ -156,6 +160,17 @@ def run_stream(gen, msgs, extra_cutsets, gaps_cycle, tier, stats: Stats | None, 
             for c in range(1, n):                   # every single cut
                 go([c])
             classes = ["single-cuts"]
+            # a long stall inside a frame: after the header, inside the payload, before / inside the check bytes
+            hl_ = refproto.header_len(gen)
+            starts_ = [0] + sorted(sr.bounds)[:-1]
+            for st0 in starts_[:3]:
+                for c in (st0 + hl_, st0 + hl_ + 1, min(n - 1, st0 + hl_ + 3)):
+                    if 0 < c < n:
+                        go([c], "advance31")
+                        go([c], "advance301")
+            go([n - 2], "advance31")
+            go([n - 1], "advance301")
+            classes.append("long-stall-mid-frame")
         pair_limit, triple_limit = (40, 0) if tier == "quick" else (64, 64)
         if n <= pair_limit:
             for cs in itertools.combinations(range(1, n), 2):
@@ -218,7 +233,7 @@ def shards(tier: str):
 
 
 def floors(tier: str):
-    f = {"single-cuts": 100, "segmentations": 10000, "connection-lost-mid-stream": 100, "burst-of-frames": 30}
+    f = {"single-cuts": 100, "segmentations": 10000, "connection-lost-mid-stream": 100, "burst-of-frames": 30, "long-stall-mid-frame": 100}
     f["exhaustive-2cuts" if tier == "quick" else "exhaustive-3cuts"] = 3
     return f
 
